@@ -64,10 +64,11 @@ static int arity(int op) { return op == R_COND ? 3 : (op == R_NEG || op == R_BIT
 
 // restrict one operand of * / % to 8 bits (stated bound; SAT cannot do 64x64 multiplier equivalence)
 static bool NARROW;
+#ifndef MULB
+#define MULB 4      // right operand of * / % is restricted to [-MULB, MULB-1]
+#endif
 static void mul_bound(int op, RV a, RV b) {
-  if (NARROW) return;   // the narrow literal domain is already small
-  if (op == R_MUL) __CPROVER_assume(b.v >= -128 && b.v <= 127);
-  if (op == R_DIV || op == R_MOD) __CPROVER_assume(b.v >= -128 && b.v <= 127 && (a.v >> 16) == 0);
+  if (op == R_MUL || op == R_DIV || op == R_MOD) __CPROVER_assume(b.v >= -MULB && b.v < MULB);
 }
 
 // ---- leaf: reference value and real node
@@ -182,7 +183,7 @@ static void d2_cases(int root) {
 }
 
 #define DEF_ROOT(name, R) \
-  void h_d1_##name(void) { HAVOC_IN(); NARROW = (R == R_MUL || R == R_DIV || R == R_MOD); \
+  void h_d1_##name(void) { HAVOC_IN(); NARROW = false; \
                            fold_case(R, -1, 0, &IN.t[R_NOPS], true); VCOVER(); } \
   void h_d2_##name(void) { HAVOC_IN(); NARROW = true; d2_cases(R); VCOVER(); }
 DEF_ROOT(add, R_ADD)       DEF_ROOT(sub, R_SUB)       DEF_ROOT(mul, R_MUL)     DEF_ROOT(div, R_DIV)
